@@ -960,11 +960,16 @@ static void read_line_marker(Token **rest, Token *tok) {
   // preprocess(), which is for a whole translation unit and reports
   // any conditional directive that is still open.
   tok = preprocess2(copy_line(rest, tok));
-  convert_pp_tokens(tok);
 
-  if (tok->kind != TK_NUM || tok->ty->kind != TY_INT)
+  // The operand is a digit sequence that is read as a decimal number
+  // whatever its leading zeros (C11 6.10.4p3): `#line 010` is line 10.
+  if (tok->kind != TK_PP_NUM)
     error_tok(tok, "invalid line marker");
-  start->file->line_delta = tok->val - start->line_no;
+  for (int i = 0; i < tok->len; i++)
+    if (tok->loc[i] < '0' || '9' < tok->loc[i])
+      error_tok(tok, "invalid line marker");
+  long line = strtol(tok->loc, NULL, 10);
+  start->file->line_delta = line - start->line_no;
 
   tok = tok->next;
   if (tok->kind == TK_EOF)
